@@ -279,6 +279,11 @@ class Formatter(BasicWalker[Retype]):
         self, own_node: BinOp, other_node: Expression, care_unop: bool
     ) -> bool:
         own_precedence: int = own_node.op.get_precedence()
+        # care_unop is True for the left operand and False for the right one
+        right_assoc: bool = own_node.op in (
+            BinaryOperand.CONCAT,
+            BinaryOperand.EXPONENT,
+        )
         return (
             self.s.ADD_ALL_BRACKETS
             or isinstance(other_node, BinOp)
@@ -286,8 +291,8 @@ class Formatter(BasicWalker[Retype]):
                 own_precedence > other_node.op.get_precedence()
                 or self.s.ADD_CLOSE_BRACKETS
                     and other_node.op in own_node.op.get_optional_brackets()
-                or other_node.op.non_commutative()
-                    and own_precedence == other_node.op.get_precedence()
+                or own_precedence == other_node.op.get_precedence()
+                    and care_unop == right_assoc
             )
             or (care_unop or self.s.ADD_CLOSE_BRACKETS)
             and isinstance(other_node, UnOp)
